@@ -7,6 +7,34 @@ props = [json.loads(l) for l in open(os.path.join(HERE, 'properties.jsonl'))]
 NA = {
     'C15': 'pure function of its input (exception class x args x traceback x hop count): RemoteException wrapping/pickling involves no thread, clock, I/O, schedule or fault, so deterministic simulation has nothing to schedule or inject; see DESIGN.md section 5',
 }
+
+GENERIC = ('Seeded search, not enumeration: each run executes the real library code under a scheduler that owns every thread switch, timer, '
+           'pipe/socket transfer and injected fault the property depends on; the oracle below is evaluated on every run; a violation is reported '
+           'with a minimised, exactly replayable (scenario, decision list). A clean batch is evidence proportional to the reach the evidence file '
+           'reports (distinct event-log digests, fault/probe counters), not a proof. This is the right level because the property quantifies over '
+           'all interleavings / histories / crash points of code with real threads and processes, which no test can sample on purpose and no '
+           'exhaustive method here can cover for the unmodified implementation. ')
+ASSURANCE = {
+    'C01': 'Oracle: output sequence equals the sequential reference (f applied to each input once, in input order; exceptions in place when return_exceptions; first failure ends the stream after all earlier outputs); every input processed at most once; no deadlock.',
+    'C02': 'Oracle: every request (call or streamed) gets exactly the reference value/exception of its own input through the whole servlet tree (batching, ensembles, switches, process boundary); no answer assembled from or delivered to another request; nothing dropped by the ledger.',
+    'C03': 'Oracle: the consumed prefix and the terminal exception equal a sequential reference interpreter of the same operator chain (the lazy and the operator-at-a-time reading where the documentation leaves it open); drains and peeks report reference counts.',
+    'C04': 'Fault = which requests fail, where (preprocess / call / which stage / which ensemble members). Oracle: exactly the planned requests (and, for batched calls, exactly their actual batch-mates from the call log) fail, with the injected class and args; EnsembleError exactly by the documented rule.',
+    'C05': 'Fault = consumer stop (break / close / drop+GC) at any position, failure of any stage at any position, StopRequested from a stoppable source. Oracle: reference prefix, then that first failure exactly once; run never deadlocks; no helper thread, executor thread or (simulated) worker process of the pipeline alive once the iterator is closed.',
+    'C06': 'Invariant at EVERY scheduler step: backlog <= capacity. History oracle: ServerBacklogFull with backpressure only if the server was full at some step since the call, immediate, leaves no trace; waits bounded by the timeout; idle => backlog 0, also after leaving the context with work in flight.',
+    'C07': 'Fault = deadlines and early stream closes placed around the service time (racy clock), caller cancellation. Oracle: the abandoning caller gets TimeoutError; every other and every later request gets its reference answer; helper threads survive until exit; exit returns.',
+    'C08': 'Invariant at every source pull and scheduler step: pulled - delivered <= the documented look-ahead bound, running invocations <= concurrency; nothing runs after close() returned; holds for every producer/consumer speed ratio the scheduler can produce.',
+    'C09': 'Worker.run driven directly with 1-3 competing workers. Oracle: every call argument is a non-empty list of <= batch_size valid inputs (a single value when batch_size is 0); rejected / pre-failed elements never reach call; every accepted input is in exactly one batch and gets exactly one correct output; a request is served without more input arriving and (exact clock) within batch_wait_time of the first element of its batch; every worker forwards the end marker.',
+    'C10': 'Oracle: tee pulls nothing at construction; the source is pulled exactly once per element; each fork yields the same elements and ends the same way as the source (same failure at the same position); no fork waits forever for another (deadlock / no-progress verdict), for every relative speed and stop pattern of the forks and a failing source.',
+    'C11': 'Fault = which worker (leaf, index) fails to initialise, in which enter/exit cycle; workload histories incl. abandoned bulky streams. Oracle: enter raises that error and leaves no thread/process; exit returns within bounded virtual time with all library threads and simulated processes gone; the same object works again (backlog 0 on re-entry, reference answers). Every fail site of every generated tree is enumerated over the runs.',
+    'C12': 'Fault = how the target ends: return, raise (classes incl. unpicklable / multi-arg), sys.exit(codes), kill at arbitrary points incl. mid-message. Oracle: result/exception/exitcode/join/done/wait report exactly that outcome and never hang.',
+    'C13': 'Reference model of per-object reference counts over creation, copying, pickling to children, nesting, drop and GC in parent and (simulated) child processes, with connection faults. Oracle: hosted object alive iff the model says some proxy refers to it; destroyed exactly once after the last goes.',
+    'C14': 'Oracle: results, attribute access and state changes through a proxy equal the same operations on a local twin; errors are raised in the caller (not returned) with class, args and server-side traceback text; with concurrent callers in several threads / (simulated) processes no update is lost or duplicated, per-process order is preserved and the final state equals the reference; managed() results behave as proxies.',
+    'C16': 'Same generated workload run through the sync and the async variant under independent schedules. Oracle: identical outputs, failures and submission side-effects.',
+    'C17': 'Oracle over the history of an IterableQueue shared by n suppliers and m consumers (threads and simulated processes): every item delivered exactly once and none left behind, every consumer iteration ends after the last supplier finished, renew() resets for a clean next round, a stop request raises StopRequested in blocked parties within the polling interval.',
+    'C18': 'Transport faults: writes fragmented at arbitrary byte positions, delays, slow data iterables, callers giving up (response_timeout), id reuse. Oracle: every echo / raising / no-argument request gets the outcome of its own request; stream responses arrive complete and in order; a late response never reaches a later request; the server shuts down; the pipe transport delivers everything, in order, to the other side.',
+    'C19': 'Oracle: concatenation of batches equals the input; sizes 1..batch_size; a short batch only if nothing further arrived before first-item time + batch_wait_time; in exact-time runs emission happens exactly at min(deadline, marker).',
+    'C20': 'Oracle: every record logged by a (simulated) child and its threads reaches the parent handler exactly once, in per-thread order, before join()/result() returns, also for children that exit by exception/sys.exit and with more records than the pipe holds; timed-out accessors lose nothing.',
+}
 checks = []
 na = []
 for p in props:
@@ -28,7 +56,7 @@ for p in props:
         'evidence_file': f'/verif/evidence/{pid}.json',
         'replay_cmd_template': f'./check {pid} --replay {{path}}',
         'engine': 'detsim',
-        'level_claimed': {'category': mod.LEVEL, 'text': mod.LEVEL_TEXT if hasattr(mod, 'LEVEL_TEXT') else mod.RULE, 'design_ref': 'DESIGN.md section 4, ' + pid},
+        'level_claimed': {'category': mod.LEVEL, 'text': GENERIC + ASSURANCE[pid] + ' Explored space: ' + mod.RULE, 'design_ref': 'DESIGN.md section 4, ' + pid},
         'level_note': getattr(mod, 'LEVEL_NOTE', 'trusted base: the simulator (sim/core.py, sim/threads.py' + (', sim/aio.py' if 'aio' in mod.NEEDS else '') + (', sim/osproc.py - a model of pipes/processes/semaphores' if 'proc' in mod.NEEDS else '') + '), the oracle in the check module, CPython 3.12.1; real mpservice code runs unmodified from /repo/src; sampling, not enumeration'),
         'technique': getattr(mod, 'TECHNIQUE', 'deterministic simulation: real mpservice code on baton-passed threads under a seeded scheduler with virtual time and injected faults; oracle over the recorded history; seeded search, minimised replay files'),
     })
